@@ -165,10 +165,12 @@ def t_pobs(obs, full_atoms):
 HEADER13 = """From GM Require Import Corr.CheckC13.
 From Coq Require Import String.
 Open Scope string_scope.
+Notation length := List.length.
 """
 HEADER14 = """From GM Require Import Corr.CheckC14.
 From Coq Require Import String.
 Open Scope string_scope.
+Notation length := List.length.
 """
 
 
